@@ -26,7 +26,7 @@ def body(run):
     q = run.quick()
     exe = [None]
     jobs = [
-        lambda: run.tlc("ScCorr", "ScCorr", "ScCorr_mc_q1.cfg", label="contract: 2 callers, all interleavings", timeout=1500, workers=4),
+        lambda: run.tlc("ScCorr", "ScCorr", "ScCorr_mc_q1.cfg" if q else "ScCorr_mc_t0.cfg", label="contract: 2 callers, all interleavings", timeout=3000, workers=6),
         lambda: run.tlc("ScCorr", "ScCorr", "ScCorr_dev_keymask.cfg", expect="violation", count=False, workers=2,
                         label="deviation demo: handler table keyed by id % 2"),
         lambda: run.tlc("ScCorr", "ScCorr", "ScCorr_dev_notype.cfg", expect="violation", count=False, workers=2,
@@ -37,6 +37,7 @@ def body(run):
         lambda: run.tlc("ScCorr", "ScCorr", "ScCorr_mc_collide.cfg", label="contract: ids reused while pending, all interleavings", timeout=1500, workers=2),
         lambda: run.tlc("ScCorr", "ScCorr", "ScCorr_gen_c18_collide.cfg", mode="gen", count=False, timeout=1500,
                         label="scripts: id wrap onto pending requests"),
+        lambda: run.tlc("ScCorr", "ScCorr", "ScCorr_mc_q1k.cfg", label="contract: 1 caller x 2 calls, every answer kind", timeout=1500, workers=2),
     ]
     if not q:
         jobs += [
@@ -56,10 +57,10 @@ def body(run):
     # every script of the collision model, at both levels (VerifSetRequestID realises the wrap)
     cases += sc.mk_cases(res[6].rows, "script", 0, 2, run.seed, client_share=2, start=len(cases), collide=True)
     if not q:
-        s2, nc2 = sc.stratified(res[9].rows, 1500, run.seed + 1)
+        s2, nc2 = sc.stratified(res[10].rows, 1500, run.seed + 1)
         cases += sc.mk_cases(s2, "script", 2, 4, run.seed, start=len(cases))
         nclasses += nc2
-        rows = rows + res[9].rows
+        rows = rows + res[10].rows
     # many-caller runs
     base = len(cases)
     stress = [dict(callers=8, rounds=3, stride=1, wrap=False), dict(callers=8, rounds=2, stride=300, wrap=True),
